@@ -9,6 +9,7 @@ import (
 	"crypto/rand"
 	"encoding/base64"
 	"fmt"
+	"net"
 
 	"tunnox-core/internal/app/server"
 	"tunnox-core/internal/core/storage"
@@ -113,4 +114,34 @@ func (s *Server) DeleteClient(clientID int64) error {
 		return err
 	}
 	return cs.DeleteClient(clientID)
+}
+
+// NewConnAddr accepts a connection whose transport reports addr as the peer address (any
+// net.Addr implementation: *net.TCPAddr with or without an IPv6 zone, *net.UDPAddr, ...);
+// label is what Conn.IP shows.
+func (s *Server) NewConnAddr(addr net.Addr, label string) (*Conn, error) {
+	t := &Transport{remote: addr, done: make(chan struct{})}
+	sc, err := s.SM.AcceptConnection(t, t)
+	if err != nil {
+		return nil, err
+	}
+	c := &Conn{ID: sc.ID, IP: label, T: t, srv: s}
+	s.mu.Lock()
+	s.conns = append(s.conns, c)
+	s.mu.Unlock()
+	return c, nil
+}
+
+// AcceptAddr opens the named connection with a peer address of the caller's choice.
+func (w *World) AcceptAddr(name string, addr net.Addr, label string) (*Conn, error) {
+	if w.conns[name] != nil {
+		return nil, fmt.Errorf("srvkit: %s accepted twice", name)
+	}
+	c, err := w.S.NewConnAddr(addr, label)
+	if err != nil {
+		return nil, err
+	}
+	w.conns[name] = c
+	w.connByID[c.ID] = name
+	return c, nil
 }
